@@ -6,6 +6,7 @@
 #include "../engine/gen.hpp"
 #include "goldilocks_base_field.hpp"
 #include "ntt_goldilocks.hpp"
+#include <memory>
 #include <set>
 #include <map>
 
@@ -44,6 +45,7 @@ static std::string cfg_str(const Cfg &c)
     if (c.warm) s += " warm-up=" + hx(c.warm);
     if ((c.lay & 7) >= 2) s += " layout=one-arena/order" + std::to_string((c.lay & 7) - 2);
     if (((c.lay >> 3) & 3) == 1) s += " called-inside-a-parallel-region";
+    { static const char *SM[] = {"", "", "", "", "smaller-alive", "larger-alive", "smaller-destroyed", "smaller-used"}; if (((c.lay >> 5) & 7) >= 4) s += std::string(" other-instance-first=") + SM[(c.lay >> 5) & 7]; }
     return s;
 }
 static std::string desc(const Case &c) { return c.prop + " " + cfg_str(cfg_of(c.v)); }
@@ -215,6 +217,17 @@ static bool body_call(const Case &cs, Ctx &ctx)
 {
     Cfg c = cfg_of(cs.v);
     classify(c, ctx);
+    // other transform objects of the same process: constructed (and possibly used, or already destroyed) before the object under test --
+    // whatever the class shares between its instances must not depend on which instance came first or how large it was
+    std::unique_ptr<NTT_Goldilocks> sib;
+    { const int sm = (int)((c.lay >> 5) & 7);
+      if (sm >= 4) {
+          int slm = sm == 5 ? c.lm + 1 + (int)((c.lay >> 8) % 3) : (c.lm > 0 ? (int)((c.lay >> 8) % (uint64_t)c.lm) : 0);
+          sib.reset(new NTT_Goldilocks(1ull << slm, c.nth));
+          if (sm == 7) { Cfg w = c; w.kind = (int)((c.lay >> 12) % 3); w.lm = slm; w.ln = slm; w.le = slm; w.ncols = 1; w.dst = 0; w.buf = 0; w.nphase = 3; w.nblock = 1; w.dmode = 0; w.lay = 0; run_call(*sib, w, false); }
+          if (sm == 6) sib.reset();
+          ctx.nt(sm == 5 ? "cfg:a-larger-instance-was-constructed-first" : "cfg:a-smaller-instance-was-constructed-first");
+      } }
     NTT_Goldilocks g(1ull << c.lm, c.nth);
     if (c.warm) {
         // the object has been used before: one earlier call of another kind / size on the same object (its result is not checked here;
@@ -304,7 +317,7 @@ static rc::Gen<std::vector<uint64_t>> gen_call(int kindsel /* -1 any of 0..4, el
         int buf = *g::irange(0, 1);
         int nth = *rc::gen::weightedOneOf<int>({{2, rc::gen::just(0)}, {4, rc::gen::elementOf(std::vector<int>(THREADS, THREADS + 5))}, {1, g::irange(1, 64)}});
         uint64_t dmode = *rc::gen::weightedElement<uint64_t>({{12, 0}, {4, 1}, {1, 2}, {1, 3}, {1, 4}, {1, 5}, {2, 6}, {1, 7}});
-        uint64_t lay = (uint64_t)*g::irange(0, 7) | ((uint64_t)*g::irange(0, 3) << 3);
+        uint64_t lay = (uint64_t)*g::irange(0, 7) | ((uint64_t)*g::irange(0, 3) << 3) | ((uint64_t)*g::irange(0, 7) << 5) | ((uint64_t)*g::irange(0, 0xFFFF) << 8);
         uint64_t dseed = *g::uni64();
         uint64_t nphase2 = *rc::gen::elementOf(std::vector<uint64_t>(PHASES, PHASES + 12));
         uint64_t nblock2 = *rc::gen::elementOf(std::vector<uint64_t>(BLOCKS, BLOCKS + 9));
@@ -365,7 +378,7 @@ static std::vector<std::vector<uint64_t>> &enum_space(int kind)
                                         uint64_t seed = pbt::mix(ctr, lm * 1000 + ln * 10 + kind);
                                         uint64_t dmode = (ctr % 4 == 3) ? 1 : 0;
                                         sp.push_back({(uint64_t)kind, (uint64_t)lm, (uint64_t)lnn, (uint64_t)(ln < 0 ? 0 : ln + de), ncols, nphase, nblock, (uint64_t)dst, (uint64_t)buf, (uint64_t)nth, dmode, seed, PHASES[(ctr * 7) % 12], blocks[(ctr * 3) % blocks.size()],
-                                                      (ctr % 5 == 4) ? 1 + (seed & 0xFFFF) : 0, (seed >> 24) & 31});
+                                                      (ctr % 5 == 4) ? 1 + (seed & 0xFFFF) : 0, (seed >> 24) & 0xFFFFFF});
                                         ctr++;
                                     }
                                 }
